@@ -72,7 +72,8 @@ def run_suite(seed, n, max_nodes=18, kinds=None, corpus=(), unique_fns=False):
     answers = driver.run_lines(reqs)
     out = []
     stats = {'cases': 0, 'steps': 0, 'calls': 0, 'errors': {}, 'kinds': {}, 'nontrivial': 0, 'distinct': set(),
-             'model_errors': 0, 'den_mismatch': 0, 'sizes': {}}
+             'model_errors': 0, 'den_mismatch': 0, 'sizes': {},
+             'thm_instances': 0, 'thm_contradicted': 0, 'thm_hyp_false': 0}
     for (case, steps), ans in zip(cases, answers):
         stats['cases'] += 1
         real = run_case_real(case, steps)
@@ -104,6 +105,15 @@ def run_suite(seed, n, max_nodes=18, kinds=None, corpus=(), unique_fns=False):
                 # the model's own theorem: machine result = denotation (diagnostic only)
                 if 'den' in m and 'fail_at' not in st and not has_silent(case) and canon(m['den']) != canon(m['r']):
                     stats['den_mismatch'] += 1
+                # instances of CM.C01.compiled_value / compiled_hash: where their hypotheses hold (evaluated by the
+                # driver on this very graph) the machine result must be the denotation, or a scheduled user exception
+                if m.get('graph_ok') and m.get('call_ok'):
+                    stats['thm_instances'] += 1
+                    user = isinstance(m['r'].get('err'), str) and m['r']['err'].startswith('user:') and st.get('fail_at')
+                    if not user and canon(m['den']) != canon(m['r']):
+                        stats['thm_contradicted'] += 1
+                elif 'graph_ok' in m:
+                    stats['thm_hyp_false'] += 1
         out.append((case, steps, real, model, diffs))
     stats['distinct'] = len(stats['distinct'])
     return {'results': out, 'stats': stats}
